@@ -956,6 +956,23 @@ func genConfig(c *engine.Chooser, family string) Config {
 		}
 		cfg.Handlers = []HSpec{{true, 0, 0}, {false, idX, 1}, {false, idY, 0}}
 		cfg.QueueCap = 1024
+	case "framewidth":
+		// every play-packet size of a window, both directions in one join, bodies incompressible: with
+		// compression the frame on the wire is the body plus a dozen bytes, so the frame length sweeps across
+		// the 1->2 byte (127/128) and 2->3 byte (16383/16384) boundaries of the length prefix one byte at a
+		// time; without compression (and below a huge threshold) the plain frame does the same
+		ch := product(4, 2)
+		cfg.Threshold = []int{-1, 0, 64, 1 << 20}[ch[0]]
+		lo, hi := 88, 144
+		if ch[1] == 1 {
+			lo, hi = 16330, 16400
+		}
+		for n := lo; n < hi; n++ {
+			cfg.S2C = append(cfg.S2C, Pkt{[]int32{idX, idY}[n%2], n, 2*n + 1})
+			cfg.C2S = append(cfg.C2S, Pkt{int32(3 + n%5), n, 2*n + 3})
+		}
+		cfg.Handlers = []HSpec{{true, 0, 0}}
+		cfg.QueueCap = 1024
 	case "ping-concurrent":
 		cfg.Ping2 = true
 	case "ping":
@@ -982,6 +999,7 @@ var families = []struct {
 	{"dispatch-ids", 0, 0},
 	{"history", 0, 1},
 	{"long", 0, 0},
+	{"framewidth", 0, 0},
 	{"burst", 2, 3},
 	{"ping", 3, 4},
 	{"ping-concurrent", 2, 3},
